@@ -391,6 +391,10 @@ def run(tier: str) -> int:
     for (cname, beh), ev in zip(meta, traces):
         rep.evaluated(len(ev) - 1, (cname, json.dumps(beh)))
     _validate(rep, wd, traces, meta)
+    if tier == "thorough":
+        # the repository's own tests that call get_localgrid, run under recording and judged by TLC
+        from .. import record
+        record.judge_suite(rep, wd, "query", ["src/grid/tests/test_grid.py", "src/grid/tests/test_molgrid.py"], "query")
     rep.set("classes", [c.name for c in cases])
     rep.set("rule", "one case = one recorded event (Query/SetPoints/SetWeights/GetItem) of a replayed behaviour on a concrete "
                     "grid class, judged by TLC (LocalGridTrace); distinct = distinct (class, behaviour)")
